@@ -252,10 +252,9 @@ theorem ite_error_none (c : Prop) [Decidable c] (a b : PyExn) :
 
 theorem getProtocolE_eq (s : Str) : (match getProtocolE s with | .ok v => some v | .error _ => none) = getProtocol? s := by
   unfold getProtocolE getProtocol?
-  cases verParse? s with
-  | some p => rfl
-  | none =>
-    exact ite_error_none _ _ _
+  cases getProtocolX s with
+  | ok p => rfl
+  | error e => rfl
 
 theorem hVersion_abs (m : Msg) (w : W) : (hVersion m w).2.st.abs = Spec.versionReport w.st.abs m.payload := by
   unfold hVersion Spec.versionReport
